@@ -374,7 +374,7 @@ reg("C05", gen=gen_skel, obligation_files=["Props/C05.v", "Gen/Skel.v"],
 reg("C15", gen=gen_skel, obligation_files=["Props/C15.v", "Gen/Skel.v"],
     rule="T2: the skeletons of the three targeter closures are regenerated and lockset_ok must hold of each by reflection. T1: 1..64 "
          "goroutines draw concurrently from one real http / JSON targeter over 0..5000 targets until each has seen exhaustion three "
-         "times (every call stamped by a global atomic counter; every other stream case with default headers built as repeated -header flags build them - three values for the key the targets set themselves, spare capacity - and every target handed out looked at again when all draws are over), and n draws from a static targeter over 1..7 targets; "
+         "times (every call stamped by a global atomic counter; every other stream case with default headers built as repeated -header flags build them - three values for the key the targets set themselves, spare capacity - and every target handed out looked at again when all draws are over; in the http format every 5th target has no header lines and is followed by an indented comment and, directly, the next request line), and n draws from a static targeter over 1..7 targets; "
          "real attacks (unlimited rate, 1..32 workers) drawing 1..1500 targets with own header lines and bodies from a JSON / http stream targeter, every request recorded by the transport; every case is non-trivial",
     clauses={10: "a target was delivered twice", 11: "a target was lost (or an unknown one delivered)", 12: "a delivered target mixes fields of different targets",
              13: "a call failed with an error other than exhaustion", 14: "a call that started after exhaustion was reported still delivered a target or error",
@@ -492,7 +492,7 @@ reg("C08", needs_cli=True,
     technique="Coq proof over a stream algebra (tee/multi-reader replay); differential correspondence incl. the CLI",
     timeout={"quick": 900, "thorough": 3000})
 reg("C09", needs_cli=True,
-    rule="streams of 1..12 " + _CODEC_GEN + " (bodies up to 2000 / 20000 bytes; cases 8 and 20 of every 30: one result the JSON encoder refuses - a year beyond 9999 - in the middle, the records written being those whose Encode returned nil) written by the real encoders through a writer that records the offset after every Encode call; gob and JSON "
+    rule="streams of 1..12 " + _CODEC_GEN + " (bodies up to 2000 / 20000 bytes; cases 5, 6 and 7 of every 30: a record larger than 64 KiB in the middle - JSON, gob, CSV; cases 8 and 20 of every 30: one result the JSON encoder refuses - a year beyond 9999 - in the middle, the records written being those whose Encode returned nil) written by the real encoders through a writer that records the offset after every Encode call; gob and JSON "
          "streams are cut at every byte offset (long streams in quick: a stride plus every record boundary +-2) and CSV streams at every record boundary, each prefix decoded by the real decoder; a sample of the gob / JSON prefixes (6 random offsets and every record boundary, -1, +1..8) is also decoded through format detection (DecoderFor) and, every 8th case, 3 prefixes through the `vegeta encode -to json` command; every 40th case runs the real `vegeta attack` against a local server, kills it (SIGKILL) about a second in and decodes its output file; all cases non-trivial",
     exhaustive="cut points of each generated gob / JSON stream up to 6000 bytes (all streams in thorough); record boundaries of CSV streams",
     clauses={1: "a cut stream decoded to something other than exactly the records completely written before the cut", 2: "an Encode call left a partial record in the stream",
